@@ -260,7 +260,7 @@ def run_faults(tier, report, configs=None):
                 size_before = int(h.steps[inj_i - 1].conts[a_idx].split(";")[0]) if inj_i > 0 else 0
             except (IndexError, ValueError):
                 pass
-            km = known_match(known, "C09", cfg, op, msg, {"size": size_before, "injected": (h.injected[0] if h.injected else "")})
+            km = known_match(known, "C09", cfg, op, msg, {"size": size_before, "injected": (h.injected[0] if h.injected else (getattr(inj[0], "inj", "") if inj else ""))})
             if km is not None:
                 report.known_finding("%s: %s" % (km["site"], km["failure"]))
                 continue
